@@ -9,7 +9,7 @@ import copy
 
 import numpy as np
 
-from aomon.checks.c04 import build, probe_maps
+from aomon.checks.c04 import build, probe_maps, check_residuals_distinct
 from aomon.core import digest
 from aomon.oracles import vk
 from aomon.probes import ScriptedGenerator, RecordingGenerator, ProbeNotApplicable
@@ -27,7 +27,7 @@ LEVEL_NOTE = "Trusted: aomon/oracles/vk.py, NumPy eigenvalues. Stability is clai
 RULE = "case = (variant, requested size, parameters, history seed) or stability configuration; non-trivial when the history has >= 10 add_row steps; distinct by parameters and history seed"
 ASSUMPTIONS = ["reads are .scrn, repr(), str(), copy.deepcopy(obj).scrn"]
 REQUIRED = ["infinitephasescreen.py:PhaseScreen.add_row", "infinitephasescreen.py:PhaseScreen.scrn"]
-REQUIRED_COUNTERS = ["innovations_recovered", "ops:add_row", "ops:read", "ops:repr", "ops:global_rng", "shift_checks", "predicted_rows", "stability_configs", "histories_longer_than_buffer"]
+REQUIRED_COUNTERS = ["innovation_residuals_compared", "ops:add_row", "ops:read", "ops:repr", "ops:global_rng", "shift_checks", "stability_configs", "histories_longer_than_buffer"]
 TIMEOUT = {"quick": 900, "thorough": 7200}
 EPS32 = float(np.finfo(np.float32).eps)
 
@@ -57,11 +57,9 @@ def history(ctx, aotools, variant, nreq, ps, r0, L0, extra, rng, n_ops, all_add=
     try:
         pg = ScriptedGenerator([])
         twin = build(aotools, variant, nreq, ps, r0, L0, extra, pg)
-        try:
-            M, B, _ = probe_maps(ctx, twin, pg) if twin._scrn.size <= 1500 else (None, None, None)
-        except ProbeNotApplicable:
-            ctx.count("screens_whose_innovations_cannot_be_scripted")
-            M, B = None, None
+        M, B, _ = probe_maps(ctx, twin, pg, need_B=False) if twin._scrn.size <= 1500 else (None, None, None)
+        if M is not None and B is None:
+            ctx.count("screens_whose_innovations_cannot_be_scripted")     # e.g. drawn in blocks: clauses that need B are not judged
         rec = RecordingGenerator(int(rng.integers(0, 2 ** 31)))
         scr = build(aotools, variant, nreq, ps, r0, L0, extra, rec)
     except (linalg.LinAlgError, np.linalg.LinAlgError):
@@ -82,7 +80,8 @@ def history(ctx, aotools, variant, nreq, ps, r0, L0, extra, rng, n_ops, all_add=
     used = []
     n_init_draws = len(rec.draws)
     Bpinv = None
-    if M is not None:
+    resid = []
+    if B is not None:
         sv = np.linalg.svd(B, compute_uv=False)
         if sv.min() > 1e-9 * sv.max():
             Bpinv = np.linalg.pinv(B)
@@ -110,6 +109,8 @@ def history(ctx, aotools, variant, nreq, ps, r0, L0, extra, rng, n_ops, all_add=
             if not one_per_row:
                 ctx.count("rows_with_another_draw_pattern(not judged)")      # e.g. innovations drawn in blocks: legal
             if M is not None:
+                resid.append(scr._scrn[0] - M @ before_int.ravel())
+            if B is not None:
                 sc = float(np.abs(before_int).max()) * float(np.abs(M).sum(axis=1).max()) + 5 * float(np.abs(B).sum(axis=1).max()) + 1e-300
                 if one_per_row:
                     ctx.count("predicted_rows")
@@ -152,6 +153,8 @@ def history(ctx, aotools, variant, nreq, ps, r0, L0, extra, rng, n_ops, all_add=
         ctx.check(attr_digest(scr) == base_attrs, "other_attribute_changed:" + op, "an attribute other than the screen / generator changed", wit)
     if n_add > nrows_int + 1:
         ctx.count("histories_longer_than_buffer")
+    # the innovation part of every row (row - A.stencil = B.b) must be a fresh vector, however the innovations are drawn
+    check_residuals_distinct(ctx, resid, "innovation_reused:" + variant, wit)
     if len(used) >= 2:          # every row gets a fresh innovation
         U = np.array(used)
         order = np.argsort(U[:, 0])
@@ -202,11 +205,9 @@ def stability(ctx, aotools, nx, ps, r0, L0, ncol, rng, long_rows):
     except (linalg.LinAlgError, np.linalg.LinAlgError):
         ctx.count("constructions_raising_LinAlgError")
         return
-    try:
-        M, B, step = probe_maps(ctx, scr, g)
-    except ProbeNotApplicable:
-        ctx.count("screens_whose_innovations_cannot_be_scripted")
-        return
+    M, B, step = probe_maps(ctx, scr, g, need_B=False)
+    if B is None:
+        ctx.count("screens_whose_innovations_cannot_be_scripted")       # the Stein residual (needs B) is then not judged
     ctx.count("stability_configs")
     resp = np.where(np.abs(M).max(axis=0) > 0)[0]
     depth = int(resp.max() // nx) + 1 if len(resp) else 1        # rows of the screen the recursion reads
@@ -217,7 +218,8 @@ def stability(ctx, aotools, nx, ps, r0, L0, ncol, rng, long_rows):
     if depth > 1:
         F[nx:, :ns - nx] = np.eye(ns - nx)
     G = np.zeros((ns, nx))
-    G[:nx] = B
+    if B is not None:
+        G[:nx] = B
     # a constant offset must decay (otherwise it is never forgotten and the statistics cannot converge to the model):
     # the response of the new row to a constant screen is the row sum of the observed map; for the conditional
     # von Karman law it is 1 - delta with delta > 0 (measured >= 6e-7 down to pixel scales of 7e-7 L0)
@@ -242,9 +244,10 @@ def stability(ctx, aotools, nx, ps, r0, L0, ncol, rng, long_rows):
     res = Pth - F @ Pth @ F.T - G @ G.T
     evp = np.linalg.eigvalsh(Pth)
     kappa = float(evp.max() / max(evp.min(), 1e-300 * evp.max()))
-    ctx.metric("stein_residual/(eps64 cond B0 (1+|A|)^2)", float(np.abs(res).max() / (2.2e-16 * kappa * B0 * (1 + anorm) ** 2)))
-    ctx.close("stein_residual", F @ Pth @ F.T + G @ G.T, Pth, (1000 * 2.2e-16 * kappa + 1e-12) * B0 * (1 + anorm) ** 2,
-              "stability:stationary_covariance_is_not_von_karman", wit, scale=B0)
+    if B is not None:
+        ctx.metric("stein_residual/(eps64 cond B0 (1+|A|)^2)", float(np.abs(res).max() / (2.2e-16 * kappa * B0 * (1 + anorm) ** 2)))
+        ctx.close("stein_residual", F @ Pth @ F.T + G @ G.T, Pth, (1000 * 2.2e-16 * kappa + 1e-12) * B0 * (1 + anorm) ** 2,
+                  "stability:stationary_covariance_is_not_von_karman", wit, scale=B0)
     # bounded progress, real executions: zero innovations from hostile screens must contract like rho^K
     shape = scr._scrn.shape
     K = int(rng.choice([200, 600, 2000]))
@@ -260,7 +263,13 @@ def stability(ctx, aotools, nx, ps, r0, L0, ncol, rng, long_rows):
         scr._scrn = s0.copy()
         g.script = []
         n0 = float(np.linalg.norm(s0[:depth]))
-        for _ in range(K):
+        scr.add_row()
+        if not np.array_equal(scr._scrn[1:], s0[:-1]):
+            # the object keeps its rows somewhere else (e.g. a ring buffer) and a start screen cannot be injected
+            # through `_scrn`: these executions would not start where the recursion is evaluated -- not judged
+            ctx.count("start_screen_injection_not_honoured(not judged)")
+            break
+        for _ in range(K - 1):
             scr.add_row()
         sK = scr._scrn[:depth].ravel()
         nK = float(np.linalg.norm(sK))
